@@ -77,21 +77,36 @@ type Coll struct {
 	NoTgt map[string]bool
 }
 
-func (c *Coll) Info() *pb.CollectionInfo {
+func (c *Coll) Info() *pb.CollectionInfo { return c.InfoState(false) }
+
+// InfoState is the catalog record of the collection, in state created or dropped.
+func (c *Coll) InfoState(dropped bool) *pb.CollectionInfo {
 	pch := []string{}
 	sp := []*commonpb.KeyDataPair{}
 	for _, v := range c.SrcV {
 		pch = append(pch, pfake.ToP(v))
 		sp = append(sp, &commonpb.KeyDataPair{Key: pfake.ToP(v), Data: []byte("init-" + pfake.ToP(v))})
 	}
+	st := pb.CollectionState_CollectionCreated
+	if dropped {
+		st = pb.CollectionState_CollectionDropped
+	}
 	return &pb.CollectionInfo{ID: c.ID, DbId: 1, Schema: &schemapb.CollectionSchema{Name: c.Name},
 		VirtualChannelNames: c.SrcV, PhysicalChannelNames: pch, StartPositions: sp,
-		State: pb.CollectionState_CollectionCreated, CreateTime: TS(0), ShardsNum: int32(len(c.SrcV))}
+		State: st, CreateTime: TS(0), ShardsNum: int32(len(c.SrcV))}
 }
 
 // World is everything that survives a crash.
 type World struct {
 	InfoFail map[string]bool // collections the downstream refuses to describe (start of their replication fails)
+	// Downstream kind of the target ("milvus" default, or "kafka": no target catalog - the channel manager takes ids,
+	// channels and partitions from the source and announces every listed collection with a create event at each start)
+	Downstream string
+	// TrackCatalog: the source catalog lists a collection as dropped once its drop message has been produced (MarkSrcDropped),
+	// and a Milvus target no longer has a collection whose drop request took effect
+	TrackCatalog bool
+	srcDropped   map[string]bool
+	tgtGone      map[string]bool
 	mu      sync.Mutex
 	seq     int
 	events  []hx.Event
@@ -110,6 +125,35 @@ type World struct {
 
 func NewWorld(uri string) *World {
 	return &World{tasks: map[string][]byte{}, pos: map[string][]byte{}, RStore: pfake.NewRStore(), Epoch: 1, Colls: map[string]*Coll{}, URI: uri}
+}
+
+// MarkSrcDropped records that the source has dropped the collection (its catalog record goes to state dropped).
+func (w *World) MarkSrcDropped(name string) {
+	w.mu.Lock()
+	defer w.mu.Unlock()
+	if w.srcDropped == nil {
+		w.srcDropped = map[string]bool{}
+	}
+	w.srcDropped[name] = true
+}
+
+func (w *World) isSrcDropped(name string) bool {
+	w.mu.Lock()
+	defer w.mu.Unlock()
+	return w.TrackCatalog && w.srcDropped[name]
+}
+
+func (w *World) isTgtGone(name string) bool {
+	w.mu.Lock()
+	defer w.mu.Unlock()
+	return w.TrackCatalog && w.tgtGone[name]
+}
+
+func (w *World) downstream() string {
+	if w.Downstream == "" {
+		return "milvus"
+	}
+	return w.Downstream
 }
 
 func (w *World) Drain() []hx.Event {
@@ -395,7 +439,12 @@ func (d *dataView) ReplicateMessage(ctx context.Context, param *coreapi.Replicat
 }
 
 func (d *dataView) DropCollection(ctx context.Context, param *coreapi.DropCollectionParam) error {
-	return d.w.step(d.epoch, hx.Event{"ev": "ddl", "kind": "dropcollection", "db": param.Database, "name": param.CollectionName}, &d.w.FailDDL, nil)
+	return d.w.step(d.epoch, hx.Event{"ev": "ddl", "kind": "dropcollection", "db": param.Database, "name": param.CollectionName}, &d.w.FailDDL, func() {
+		if d.w.tgtGone == nil {
+			d.w.tgtGone = map[string]bool{}
+		}
+		d.w.tgtGone[param.CollectionName] = true
+	})
 }
 
 func (d *dataView) DropPartition(ctx context.Context, param *coreapi.DropPartitionParam) error {
@@ -486,6 +535,7 @@ func (d *dataView) CreateRole(ctx context.Context, param *coreapi.CreateRolePara
 type srcMeta struct {
 	*pfake.MetaOp
 	colls []*Coll
+	w     *World
 }
 
 func (m *srcMeta) WatchCollection(ctx context.Context, filter coreapi.CollectionFilter)                    {}
@@ -497,12 +547,31 @@ func (m *srcMeta) UnsubscribeEvent(taskID string, eventType coreapi.WatchEventTy
 func (m *srcMeta) GetAllCollection(ctx context.Context, filter coreapi.CollectionFilter) ([]*pb.CollectionInfo, error) {
 	var res []*pb.CollectionInfo
 	for _, c := range m.colls {
-		res = append(res, c.Info())
+		res = append(res, c.InfoState(m.w != nil && m.w.isSrcDropped(c.Name)))
 	}
 	return res, nil
 }
 func (m *srcMeta) GetAllPartition(ctx context.Context, filter coreapi.PartitionFilter) ([]*pb.PartitionInfo, error) {
-	return nil, nil
+	if m.w == nil || m.w.downstream() != "kafka" {
+		return nil, nil
+	}
+	// without a target catalog the channel manager takes the partitions from the source
+	var res []*pb.PartitionInfo
+	for _, c := range m.colls {
+		var names []string
+		for n := range c.Parts {
+			names = append(names, n)
+		}
+		sort.Strings(names)
+		for _, n := range names {
+			pi := &pb.PartitionInfo{PartitionID: c.Parts[n][0], PartitionName: n, CollectionId: c.ID, State: pb.PartitionState_PartitionCreated}
+			if filter != nil && filter(pi) {
+				continue
+			}
+			res = append(res, pi)
+		}
+	}
+	return res, nil
 }
 
 // ---------------------------------------------------------------- incarnation
@@ -562,6 +631,7 @@ func NewInc(w *World, maxCount int) *Inc {
 			}
 		}
 		tc.Fail = w.InfoFail[c.Name]
+		tc.Missing = w.isTgtGone(c.Name)
 		inc.Target.Set("default", c.Name, tc)
 	}
 	inc.CDC = server.NewMetaCDCForVerif(cfg, &storeView{w: w, epoch: epoch}, nil)
@@ -573,7 +643,7 @@ func NewInc(w *World, maxCount int) *Inc {
 
 func (inc *Inc) parts(info *meta.TaskInfo) (*server.VerifEntityParts, error) {
 	w := inc.W
-	mo := &srcMeta{MetaOp: pfake.NewMetaOp()}
+	mo := &srcMeta{MetaOp: pfake.NewMetaOp(), w: w}
 	var names []string
 	for n := range w.Colls {
 		names = append(names, n)
@@ -592,12 +662,12 @@ func (inc *Inc) parts(info *meta.TaskInfo) (*server.VerifEntityParts, error) {
 	cm, err := cdcreader.NewReplicateChannelManager(inc.TT, &pfake.Factory{}, inc.Target, config.ReaderConfig{
 		MessageBufferSize: inc.Cfg.SourceConfig.ReadChanLen, TTInterval: inc.Cfg.SourceConfig.TimeTickInterval,
 		Retry: inc.Cfg.Retry, ReplicateID: w.URI,
-	}, mo, rm, func(string, *msgstream.MsgPack) {}, "milvus")
+	}, mo, rm, func(string, *msgstream.MsgPack) {}, w.downstream())
 	if err != nil {
 		return nil, err
 	}
 	wr := cdcwriter.NewChannelWriter(&dataView{w: w, epoch: inc.Epoch}, rm,
-		config.WriterConfig{MessageBufferSize: inc.Cfg.SourceConfig.ReadChanLen, Retry: inc.Cfg.Retry}, mo.GetAllDroppedObj(), "milvus")
+		config.WriterConfig{MessageBufferSize: inc.Cfg.SourceConfig.ReadChanLen, Retry: inc.Cfg.Retry}, mo.GetAllDroppedObj(), w.downstream())
 	return &server.VerifEntityParts{ChannelManager: cm, TargetClient: inc.Target, MetaOp: mo, Writer: wr, MQDispatcher: inc.RPC, MQTTDispatcher: inc.TT}, nil
 }
 
